@@ -392,9 +392,9 @@ var prop = &harness.Property{
 		{Name: "huge", Weight: 1, Run: scenarioHuge},
 		{Name: "sparse", Weight: 40, Run: scenarioSparse},
 	},
-	Real:        []string{"save/region: CreateWriter, Load, WriteSector, ReadSector, ExistSector, PadToFullSector (time.Now woven to the simulated clock)"},
+	Real:        []string{"save/region: CreateWriter, Load, WriteSector, ReadSector, ExistSector, PadToFullSector (time.Now woven to the simulated clock)", "save/region: Create/Open/Close on a real os.File in a scratch directory (1 in 12 histories; probe region.on.real.os.File)"},
 	Stub:        []string{"disk (simdisk.File, with and without io.WriterAt)", "clock (simrt.Clock with jumps between the clock reads of one operation)"},
-	NotRun:      []string{"region.Create/Open on real os.File"},
+	NotRun:      []string{"disk faults (C15)", "concurrent use of one Region (the statement quantifies over histories; two regions used by two tasks are run in scenario pair)"},
 	Rule:        "a run is one seeded history of 1..400 operations (write with sizes around sector boundaries and the 255-sector limit, overwrite grow/shrink/keep, read, exist, pad, clean re-open, over-limit write, clock advance/jump) checked after every operation against a map model and the independent Anvil parser, and periodically against a fresh Load (offsets, timestamps, every chunk). Non-trivial = at least two live chunks; distinct = distinct hash over the sequence of allocation states",
 	Assumptions: []string{"fault-free disk (faults are C15's configuration)", "chunk sizes >= 1 byte", "the independent Anvil parser in /verif/sim/oracle/anvil is the judge of file validity"},
 }
